@@ -60,6 +60,12 @@ def rc(rng, s):
     return "".join(ch.upper() if rng.random() < 0.5 else ch.lower() for ch in s)
 
 
+def _section(rng, i, k):
+    """the declaration section an instance variable is written in: a function block contains its instances whatever the section"""
+    secs = ["VAR", "VAR_INPUT", "VAR_OUTPUT", "VAR_IN_OUT", "VAR"]
+    return rng.choice(secs) if rng is not None else secs[(i * 7 + k * 3) % len(secs)]
+
+
 def realise(n, edges, kind, rng, kinds=None):
     """returns (program text, model declaration list) for a dependency graph: edge (a, b) = a depends on b"""
     succ = {i: [b for a, b in edges if a == i] for i in range(n)}
@@ -67,8 +73,9 @@ def realise(n, edges, kind, rng, kinds=None):
     decls = []
     if kind == "fb":
         for i in range(n):
-            vs = "".join("  v%d_%d : %s;\n" % (i, k, rc(rng, "Fb%d" % j)) for k, j in enumerate(succ[i]))
-            body = ("VAR\n" + vs + "END_VAR\n") if vs else ""
+            # every instance in a section of its own: an instance is contained whatever the section
+            body = "".join("%s\n  v%d_%d : %s;\nEND_VAR\n" % (_section(rng, i, k), i, k, rc(rng, "Fb%d" % j))
+                           for k, j in enumerate(succ[i]))
             text.append("FUNCTION_BLOCK Fb%d\n%sEND_FUNCTION_BLOCK\n" % (i, body))
             decls.append("P %d %s" % (i + 1, ",".join(str(j + 1) for j in succ[i])) if succ[i] else "P %d" % (i + 1))
         return "\n".join(text), decls
@@ -77,8 +84,9 @@ def realise(n, edges, kind, rng, kinds=None):
         tl = []
         for i in range(n):
             if kinds[i] == "fb":
-                vs = "".join("  v%d_%d : %s;\n" % (i, k, rc(rng, "Nd%d" % j)) for k, j in enumerate(succ[i]))
-                text.append("FUNCTION_BLOCK Nd%d\n%sEND_FUNCTION_BLOCK\n" % (i, ("VAR\n" + vs + "END_VAR\n") if vs else ""))
+                vs = "".join("%s\n  v%d_%d : %s;\nEND_VAR\n" % (_section(rng, i, k), i, k, rc(rng, "Nd%d" % j))
+                             for k, j in enumerate(succ[i]))
+                text.append("FUNCTION_BLOCK Nd%d\n%sEND_FUNCTION_BLOCK\n" % (i, vs))
                 decls.append("P %d %s" % (i + 1, ",".join(str(j + 1) for j in succ[i])) if succ[i] else "P %d" % (i + 1))
             elif not succ[i]:
                 tl.append("  Nd%d : (A%d, B%d);" % (i, i, i))
